@@ -306,7 +306,7 @@ impl Monitor for C08 {
     }
     fn plan(&self, tier: Tier) -> Vec<String> {
         let mut v: Vec<String> = (0..SHIPPED.len()).map(|i| format!("calib:{i}")).collect();
-        for i in 0..tier.pick(90, 6000) {
+        for i in 0..tier.pick(70, 6000) {
             v.push(format!("rnd:{i}"));
         }
         v
